@@ -20,7 +20,11 @@ Asm == [ none |-> <<<<>>, "xany">>,
          nonzero |-> <<<<B("Ne", x, TInt(0))>>, "xnonzero">>,
          rat |-> <<<<In(x, "Rationals")>>, "xrat">>,
          posy |-> <<<<B("Lt", TInt(0), x), B("Lt", TInt(0), y), In(z, "Reals")>>, "pos">>,
-         realy |-> <<<<In(x, "Reals"), B("Lt", TInt(0), y), In(z, "Reals")>>, "xreal">> ]
+         realy |-> <<<<In(x, "Reals"), B("Lt", TInt(0), y), In(z, "Reals")>>, "xreal">>,
+         xynonneg |-> <<<<B("Le", TInt(0), x), B("Le", TInt(0), y), B("Le", TInt(0), z)>>, "xynonneg">>,
+         xynonpos |-> <<<<B("Le", x, TInt(0)), B("Le", y, TInt(0)), B("Le", z, TInt(0))>>, "xynonpos">>,
+         xnonnegynonpos |-> <<<<B("Le", TInt(0), x), B("Le", y, TInt(0))>>, "xnonnegynonpos">>,
+         xyzero |-> <<<<B("Eq", x, TInt(0)), B("Eq", y, TInt(0))>>, "xyzero">> ]
 Nums == {TInt(0), TInt(1), TInt(-1), TInt(2), TInt(-3), TInt(4), TRat(1, 2), TRat(-2, 3), TI, TComplex(TInt(1), TInt(-2)), TConst("pi"), TConst("E"),
          TInf(1), TInf(-1), TInf(0), TNaN, U("sqrt", TInt(2)), U("sqrt", TInt(-2)), B("pow", TInt(-8), TRat(1, 3)), B("mul", TInt(2), TConst("pi")),
          B("add", TInt(1), TConst("pi")), B("sub", TInt(3), TConst("pi")), B("mul", TI, TConst("pi")), U("exp", TInt(2)), U("log", TInt(2)),
@@ -32,7 +36,7 @@ A1 == {x, y, U("neg", x), B("mul", TInt(2), x), B("mul", TInt(-3), x), B("mul", 
        B("mul", TI, x), B("add", x, TI), B("add", B("pow", x, TInt(2)), TInt(1)), B("sub", B("pow", x, TInt(2)), TInt(1)), U("neg", B("pow", x, TInt(2))),
        B("add", B("pow", x, TInt(2)), B("pow", y, TInt(2))), B("add", B("pow", x, TInt(2)), x), B("mul", x, B("add", x, TInt(1))),
        B("add", B("mul", x, y), TInt(1)), B("mul", TInt(2), B("mul", x, y)), B("add", x, TConst("pi")), B("mul", x, TConst("pi")), B("add", x, TRat(1, 2)),
-       B("pow", B("add", x, y), TInt(2)), B("pow", B("add", x, TInt(1)), TInt(-1)), B("mul", B("pow", x, TInt(2)), B("pow", y, TInt(-1))), B("add", x, z), B("mul", x, z)}
+       B("pow", B("add", x, y), TInt(2)), B("add", x, B("mul", TInt(3), y)), B("sub", U("neg", x), B("mul", TInt(2), y)), TOp("add", <<x, y, z>>), B("sub", B("mul", TInt(2), x), y), B("pow", B("add", x, TInt(1)), TInt(-1)), B("mul", B("pow", x, TInt(2)), B("pow", y, TInt(-1))), B("add", x, z), B("mul", x, z)}
 F1 == {"abs", "sign", "floor", "ceiling", "conjugate", "exp", "log", "sin", "cos", "tan", "sqrt", "sinh", "cosh", "asin", "atan", "gamma", "erf"}
 A2 == {U(f, a) : f \in F1, a \in {x, y, U("neg", x), B("mul", TInt(2), x), B("add", x, TInt(1)), B("pow", x, TInt(2)), B("mul", x, y), B("mul", TI, x)}}
       \cup {TOp(m, <<a, b>>) : m \in {"max", "min"}, a \in {x, U("neg", x), B("pow", x, TInt(2))}, b \in {TInt(0), TInt(1), y, TInt(-1)}}
